@@ -188,7 +188,7 @@ func c07Source() (*ConsulSource, func()) {
 // on the sequence of successful compare-and-set operations (each strictly increases the counter and
 // returns the new value); a caller dying between the two calls leaves the counter untouched.
 
-//verif:entry HarnessNextRunNumber unwind=6 reach=success,created,refused,getfail,casfail,garbage replace=(*github.com/hashicorp/consul/api.KV).Get=>c07KVGet,(*github.com/hashicorp/consul/api.KV).CAS=>c07KVCAS
+//verif:entry HarnessNextRunNumber unwind=6 conform=12 reach=success,created,refused,getfail,casfail,garbage replace=(*github.com/hashicorp/consul/api.KV).Get=>c07KVGet,(*github.com/hashicorp/consul/api.KV).CAS=>c07KVCAS
 func HarnessNextRunNumber() {
 	c07 = c07New()
 	cc, closeFn := c07Source()
